@@ -1148,6 +1148,30 @@ pub fn c08(tier: Tier) -> i32 {
     ] {
         items3.push(l1_item(format!("param-extra:{}", t), &toks_of(t)));
     }
+    // names x language version: a function may carry the name of any contract-like definition of the file (only the
+    // name of its OWN contract makes it an old-style constructor, and only that case is gray), under every
+    // pragma spelling incl. none
+    for pragma in ["", "pragma solidity 0.4.26 ;", "pragma solidity ^ 0.4.0 ;", "pragma solidity >= 0.4.22 < 0.6.0 ;", "pragma solidity 0.5.0 ;", "pragma solidity 0.8.19 ;"] {
+        for other in ["contract D { }", "interface D { }", "library D { }", "abstract contract D { }"] {
+            for other_first in [true, false] {
+                for fname in ["f", "C", "D", "c"] {
+                    for (hk, close) in [("contract C {", "}"), ("library C {", "}"), ("contract C is D {", "}")] {
+                        let mut v = toks_of(pragma);
+                        if other_first {
+                            v.extend(toks_of(other));
+                        }
+                        v.extend(toks_of(hk));
+                        v.extend(toks_of(&format!("function {} ( bytes memory p , uint256 [ ] memory q ) public {{ q [ 0 ] = 1 ; }} function keep ( string memory s ) external {{ }}", fname)));
+                        v.extend(toks_of(close));
+                        if !other_first {
+                            v.extend(toks_of(other));
+                        }
+                        items3.push(l1_item(format!("names:{}:{}:{}:{}:{}", pragma, other, other_first, fname, hk), &v));
+                    }
+                }
+            }
+        }
+    }
     let sw3 = refdet::sweep_texts(&items3, &m2c, Mode::Semantic);
     require_must(&mut run, &sw3, &["memory_to_calldata"], "parameters");
     let sample3 = json!({"label": items3[items3.len() / 2].0, "text": items3[items3.len() / 2].1});
